@@ -37,7 +37,10 @@ var cbPlan *cbPlanT
 
 var errForeign = errors.New("sim: foreign callback error")
 
-func cbOutcome() int {
+// cbOutcome returns the planned outcome of this callback invocation.  Callbacks that have no
+// token position at hand (Capture, UnmarshalText) cannot return a located error of their own;
+// for them a planned "located" outcome becomes a foreign error.
+func cbOutcome(canLocate ...bool) int {
 	simrt.YieldPoint(simrt.SiteCallback)
 	p := cbPlan
 	if p == nil {
@@ -46,6 +49,9 @@ func cbOutcome() int {
 	i := p.n
 	p.n++
 	if i < len(p.outcomes) {
+		if p.outcomes[i] == cbLocated && len(canLocate) > 0 && !canLocate[0] {
+			p.outcomes[i] = cbForeign
+		}
 		switch p.outcomes[i] {
 		case cbForeign:
 			p.foreign = true
@@ -167,11 +173,9 @@ func parseShape(lex *lexer.PeekingLexer) (cbShape, error) {
 type cbFlags []string
 
 func (f *cbFlags) Capture(values []string) error {
-	switch cbOutcome() {
+	switch cbOutcome(false) {
 	case cbForeign:
 		return errForeign
-	case cbLocated:
-		return participle.Errorf(lexer.Position{}, "sim: unlocated capture error")
 	}
 	for _, v := range values {
 		if v == "forbidden" {
@@ -189,7 +193,7 @@ type cbAddr struct {
 }
 
 func (a *cbAddr) UnmarshalText(b []byte) error {
-	switch cbOutcome() {
+	switch cbOutcome(false) {
 	case cbForeign:
 		return errForeign
 	}
